@@ -27,6 +27,9 @@ CLAIMS = {
  "C02": ("effect sets per public operation over the module call graph against a who-may-write table; contradiction rule on version-map reads (comma-ok, value used only under ok); arithmetic shape of every store to the version counter and key identity of inserts/returns (memory-aware); edge-dominance of deletes/activations and of input guards",
          "Structural necessary conditions, decided on all paths (not the model equivalence): each operation can only write the locations its documentation allows (put never re-activates, only activate changes the default); a missing version is never read as an empty value; version numbers only move by +1 from the counter (never recomputed, so never reused), new values are stored under and returned as that number, the dedupe short-cut applies only while that version exists with equal bytes; the active version exists and cannot be deleted; empty/reserved names and version 0 never reach a mutation; values are immutable copies; operations touch only their own name. Does not decide equality with the map model over histories.",
          "calls outside the module do not touch db's private state", "4/C02"),
+ "C11": ("path analysis of the poll loop (fetch-or-skip, deciding branch of every skip path) with backward data/control-dependence slicing through the snapshot's struct field to the handle map; edge-dominance of apply by poll's nil error; error-flow of every fetch error into the returned join; value identity of name/version/value pairings; single-flight key constants; effect set of poll",
+         "Structural necessary conditions, decided on all paths: a poll fetches every name the store keeps (a skip must depend on the handle map, because names with handles are never forgotten); nothing is applied after a failed poll and no fetch error is dropped; the name fetched, the version sent, the value recorded and the entry installed are the same snapshot entry; installs happen in one critical section followed by a cache flush; poll rounds are single-flighted under a key disjoint from lookups and Refresh is the only route to them; poll itself writes nothing. Does not decide freshness against the service's history, cadence +/-10%, or convergence.",
+         "singleflight runs one function per key at a time; errors.Join nil iff all nil", "4/C11"),
  "C03": ("typestate on SSA CFG paths (mutation => save => tested error before any return), value-flow of the bytes handed to the file writer, edge-dominance on the open path, JSON wire-signature computed from go/types against the frozen v1 signature, reader/writer sibling agreement",
          "Structural necessary conditions, decided on all paths: no mutator of the persistent state can return without having called the file-writing save and tested its error; what is saved is the live map, wrapped as documented; opening writes only when the file does not exist; the v1 wire layout (keys, encodings, AEAD contexts, key template, schema constant) is unchanged and reader and writer agree. Does not decide state equality after arbitrary histories nor decoding of real old files.",
          "encoding/json encodes according to the computed shape; tink keyset reader/writer are inverse; the v1 layout is the one documented on db.kv", "4/C03"),
